@@ -39,7 +39,7 @@ JudgeAdd(e) ==
                 "rejected Exons.Add (" \o e.err \o ") changed the previous exon set: " \o
                 (IF e.old # e.before THEN "the slice it was called on is rewritten" ELSE "the slice it was called on is intact") \o
                 (IF e.ret # e.before THEN ", the returned slice is not the old one" ELSE "")),
-           Fail(e.err \in AddClasses(e.before, e.xs), "Exons.Add error is '" \o e.err \o "', specification: '" \o a.err \o "'") \o
+           Fail(e.err = a.err \/ e.err \in AddClasses(e.before, e.xs), "Exons.Add error is '" \o e.err \o "', specification: '" \o a.err \o "'") \o
            Fail(e.xsafter = e.xs, "Exons.Add modified its argument slice"))
 
 JudgeSet(e) ==
@@ -52,7 +52,7 @@ JudgeSet(e) ==
     THEN J(Fail(e.after = Sorted(e.xs), "accepted SetExons does not hold the sorted arguments"),
            Fail(e.xsafter = e.xs, "SetExons modified its argument slice"))
     ELSE J(Fail(e.after = e.before, "rejected SetExons (" \o e.err \o ") changed the previous exon set"),
-           Fail(e.err \in BuildClasses(e.xs), "SetExons error is '" \o e.err \o "', specification: '" \o c \o "'") \o
+           Fail(e.err = c \/ e.err \in BuildClasses(e.xs), "SetExons error is '" \o e.err \o "', specification: '" \o c \o "'") \o
            Fail(e.xsafter = e.xs, "SetExons modified its argument slice"))
 
 \* a transcript as observed: judged when its exon list is one SetExons can have accepted
